@@ -116,14 +116,16 @@ def handle (line : String) : String :=
   | ["copy", st, env, term, chunks] =>
     match parseStack? st, parseEnv? env, parseChunks? chunks with
     | some st, some env, some cs =>
-      let b : Base := ⟨cs, if term = "eof" then .eof else .err⟩
+      -- `eof+` / `err+`: the last segment is returned together with the end
+      let b : Base := ⟨cs, if term.startsWith "eof" then .eof else .err, term.endsWith "+"⟩
       let o := engineCopy env (st.measure b + 1) st b
       s!"out={digest o.bytes} ok={boolStr o.ok}"
     | _, _, _ => "bad-op"
   | ["wrap", st, term, chunks, acts] =>
     match parseStack? st, parseChunks? chunks with
     | some st, some cs =>
-      let b : Base := ⟨cs, if term = "eof" then .eof else .err⟩
+      -- `eof+` / `err+`: the last segment is returned together with the end
+      let b : Base := ⟨cs, if term.startsWith "eof" then .eof else .err, term.endsWith "+"⟩
       ";".intercalate (runWrap (acts.splitOn ",") st b)
     | _, _ => "bad-op"
   | "conn" :: toks =>
